@@ -31,7 +31,7 @@ def render(i, variant):
     g = ", G: Send + 'static" if ret == "generic" else ""
     targ = "<u8>" if ret == "generic" else ""
     tgen = "<G: Send + 'static>" if ret == "generic" else ""
-    at = "#[::async_trait::async_trait]\n" if mode.endswith("-at") else ""
+    at = ("#[::async_trait::async_trait(?Send)]\n" if i.get("atargs") else "#[::async_trait::async_trait]\n") if mode.endswith("-at") else ""
     items = []
     if mode in ("fn", "mod", "fn-concrete"):
         conc = mode == "fn-concrete"
